@@ -16,7 +16,12 @@ func init() {
 			"Not covered: exact extractor output on arbitrary text that merely resembles clauses.",
 		Assume:  []string{"the walkers hand a rule function the rule text it was selected by (checked by C18)"},
 		Trusted: []string{"go/types", "go/ssa", "regexp/syntax"},
-		Run:     func(c *Ctx) { runC15(c); base(c, "DECLARED", "STATE", "ALIAS", "TEXT", "MAT") },
+		Run: func(c *Ctx) {
+			runC15(c)
+			runMsgArg(c, "C15-MSGARG")
+			runLiveSettings(c, "C15-LIVE")
+			base(c, "DECLARED", "STATE", "ALIAS", "TEXT", "MAT")
+		},
 	})
 }
 
